@@ -187,7 +187,7 @@ def jw_term(T, c):
     return '(JwC %s %s %s [%s] %s)' % (wrap, B(c['valid']), T.obytes(c['p']), frames, unw_res(T, c['got']))
 
 def ctx_term(T, c):
-    return '(CtxC %d%%N %d%%N %d%%N %d%%N)' % (c['in'], c['delivered'], c['wrapped'], c['unwrapped'])
+    return '(CtxC %d%%N %d%%N %d%%N %d%%N %d%%N %d%%N)' % (c['in'], c['delivered'], c['wrapped'], c['unwrapped'], c['copy'], c['orig_after'])
 def cc_term(T, c):
     return '(CcC %s %d %s)' % (cq_term(T, c['c']), c['kind_u'], B(c['nofb_u']))
 
